@@ -26,7 +26,7 @@ type params struct {
 
 func scenario(p params, r *lib.RNG) *ts.Scenario {
 	sc := &ts.Scenario{Name: p.name, Seed: p.seed, Head: p.head, Real: p.real,
-		Gen:  ts.GenOpts{MaxTxs: 3, MaxLogs: 4, Traces: p.shape == "trace", AlwaysTrace: p.real && p.shape == "trace", Decoys: true, EmptyProb: 20},
+		Gen:  ts.GenOpts{MaxTxs: 3, MaxLogs: 4, Traces: p.shape == "trace", AlwaysTrace: p.real && p.shape == "trace", Tags: p.shape == "tags", Decoys: true, EmptyProb: 20},
 		Srcs: []ts.SrcSpec{{Name: "main", ChainID: 1, Batch: p.batch, Conc: p.conc, URL: "http://main.invalid"}},
 		IGs: []ts.IGSpec{{Name: "ig1", Shape: p.shape, Table: "t1", AddrFlt: p.addrFlt,
 			Sources: []ts.SrcRef{{Name: "main", Start: p.start, Stop: p.stop}}}}}
@@ -124,14 +124,21 @@ func run(cfg lib.Cfg) error {
 		}
 		judge(sc, "corpus-trace-cached-segment")
 	}
-	shapes := []string{"log", "lognh", "tx", "trace"}
+	// corpus: an event with a selected string[] argument whose elements are sometimes empty
+	// (the decode buffer of the integration is reused from log to log: an empty element after
+	// a non-empty one in the same row slot must come out empty)
+	for v := 0; v < 3; v++ {
+		p := params{name: fmt.Sprintf("corpus-string-array-%d", v), shape: "tags", batch: 2 + 2*v, conc: 1 + v%2, start: 1, head: 10, seed: uint64(17 + v), real: v == 2}
+		judge(scenario(p, r.Fork()), "corpus-string-array")
+	}
+	shapes := []string{"log", "lognh", "tx", "trace", "tags"}
 	// every batch x conc pair on one fixed chain (thorough: all 96; quick: a seeded third)
 	for b := 1; b <= 12; b++ {
 		for c := 1; c <= 8; c++ {
 			if !cfg.Thorough() && r.Intn(4) != 0 {
 				continue
 			}
-			p := params{name: fmt.Sprintf("grid-b%d-c%d", b, c), shape: shapes[(b+c)%4], batch: b, conc: c, start: 1, head: 14, seed: 5}
+			p := params{name: fmt.Sprintf("grid-b%d-c%d", b, c), shape: shapes[(b+c)%len(shapes)], batch: b, conc: c, start: 1, head: 14, seed: 5}
 			judge(scenario(p, r.Fork()), "grid-batch-conc")
 		}
 	}
